@@ -232,6 +232,16 @@ func renderNode(sb *strings.Builder, fset *token.FileSet, n ast.Node, d *duality
 		renderNode(sb, fset, x.Type, d)
 		var elts []string
 		for _, e := range x.Elts {
+			// a field key is renamed with the duality only where the struct has the dual field too (Node{prev, next}); the one
+			// `next` of an adapter that both twins build (&funcIterator[T]{next: func…}) is the same field on either side
+			if kv, isKV := e.(*ast.KeyValueExpr); isKV && d != nil {
+				if id, isId := kv.Key.(*ast.Ident); isId && d.ident(id.Name) != id.Name {
+					if known, has := litStructHasField(x, d.ident(id.Name)); known && !has {
+						elts = append(elts, id.Name+": "+render(fset, kv.Value, d))
+						continue
+					}
+				}
+			}
 			elts = append(elts, render(fset, e, d))
 		}
 		sort.Strings(elts) // keyed fields: order is immaterial
@@ -583,4 +593,35 @@ func selfDual(c *Ctx, r *R, key, a string, d *duality) {
 		return
 	}
 	r.violated(key, fa.Pos(), a+" must treat both ends alike (self-dual) but does not: ["+strings.Join(oa, " | ")+"] has no mirror image; dual gives ["+strings.Join(ob, " | ")+"]")
+}
+
+// litStructHasField: the struct type of the composite literal (from the type-checked packages) has a field of that name.
+func litStructHasField(lit *ast.CompositeLit, name string) (known, has bool) {
+	if curCtx == nil {
+		return false, false
+	}
+	for _, p := range curCtx.Pkgs {
+		if p == nil || p.TypesInfo == nil {
+			continue
+		}
+		tv, ok := p.TypesInfo.Types[lit]
+		if !ok || tv.Type == nil {
+			continue
+		}
+		t := tv.Type
+		if pt, isP := t.Underlying().(*types.Pointer); isP {
+			t = pt.Elem()
+		}
+		st, isSt := t.Underlying().(*types.Struct)
+		if !isSt {
+			return false, false
+		}
+		for i := 0; i < st.NumFields(); i++ {
+			if st.Field(i).Name() == name {
+				return true, true
+			}
+		}
+		return true, false
+	}
+	return false, false
 }
